@@ -243,6 +243,17 @@ def tie_a(prop, tier, seed):
             if i.get('stageA') is not None:
                 stats['stage_a_compared'] = stats.get('stage_a_compared', 0) + 1
     stats['error_classes'] = classes
+    import collections
+    import cells
+    by = {}
+    for c in cfgs:
+        cnt = collections.Counter()
+        for cid, it in cases:
+            if mres[c][cid]['status'] == 'ok' and ires[c][cid]['status'] == 'ok':
+                for k in mres[c][cid].get('cells', []):
+                    cnt[k] += 1
+        by[c] = cnt
+    stats['decision_cells'] = cells.coverage(by)
     return cases, dis, stats
 
 
@@ -372,6 +383,9 @@ def check(prop, tier, seed):
     # 2. correspondence
     cases, dis, stats = tie_a(prop, tier, seed)
     xc = extraction_crosscheck(cases, seed)
+    uncovered = {c: v['missing'] for c, v in stats['decision_cells'].items() if v['missing']}
+    if uncovered and not dis:
+        raise runner.Infra('the corpus of this run does not reach every decision cell of the generator: %r' % uncovered)
     mine = [d for d in dis if owns(prop, d)]
     others = len(dis) - len(mine)
     for d in sorted(mine, key=lambda d: len(d['src']))[:5]:
